@@ -39,7 +39,7 @@ func lexRun(input string) string {
 		l = lexer.NewLineMode(src)
 		marker = token.EOL
 	} else {
-		l = lexer.NewBytes([]byte(src))
+		l = lexer.NewBytes(exactBytes(src))
 	}
 	ids := map[*token.Token]int{}
 	var sb strings.Builder
